@@ -33,7 +33,8 @@ text the hand-written model was written against) so that the Coq file still type
 === PRIMITIVE TABLE (trusted: each line is a claim about Python/Pyramid semantics) ======================
   parameters (by position)   context -> the lineage value L (through lineage(context) only);
                              principals -> ps : list text ; permission -> p : text ; self: not modelled
-  lineage(context)           L            (location.lineage is shape-pinned and modelled as the __parent__ chain;
+  lineage(context)           L            (location.lineage is translated separately: translate_lineage.py -> gen_lineage,
+                                           run_C11 computes L with it from the world of __parent__ pointers;
                                            only as a loop iterable or directly inside list(..): it is a generator)
   list(x)                    x            (x a lineage or an ACL; the result is a re-iterable list)
   reversed(x)                rev x        (x a list(..) result; only as a loop iterable or directly inside list(..))
@@ -88,6 +89,8 @@ import ast
 import json
 import os
 
+from harness.c11 import translate_lineage
+
 HERE = os.path.dirname(os.path.abspath(__file__))
 
 # source functions whose control flow is regenerated on every run (read by tools/coverage_map.py)
@@ -97,6 +100,7 @@ TRANSLATED = ['pyramid/authorization.py:ACLHelper.permits',
               'pyramid/authorization.py:ACLAuthorizationPolicy.permits',
               'pyramid/authorization.py:ACLAuthorizationPolicy.principals_allowed_by_permission',
               'pyramid/util.py:is_nonstr_iter',
+              'pyramid/location.py:lineage',
               'pyramid/security.py:AllPermissionsList.__contains__']
 FALLBACK = os.path.join(HERE, 'gen_fallback.json')
 
@@ -1147,6 +1151,14 @@ def translate_source(text, others=None):
     problems, out, summary = [], [], {}
     fb = load_fallback()
     others = others or {}
+    # pyramid/location.py:lineage (generator with a while loop): harness/c11/translate_lineage.py
+    body = translate_lineage.translate(others.get('pyramid/location.py'), problems)
+    if body is None:
+        summary['gen_lineage'] = 'FALLBACK (stored translation of the reference text)'
+        body = fb.get('gen_lineage') or translate_lineage.DEFAULT
+    else:
+        summary['gen_lineage'] = 'translated from source (%d lines of Gallina)' % (body.count('\n') + 1)
+    out.append('Definition gen_lineage %s :=\n  %s.\n' % (translate_lineage.SIG, body))
     for spec in LEAVES:
         gen = spec['gen']
         body = translate_leaf(spec, others.get(spec['file']), problems)
@@ -1219,6 +1231,7 @@ def _read(path):
 
 def translate_tree(src_root):
     others = {spec['file']: _read(os.path.join(src_root, spec['file'])) for spec in LEAVES}
+    others['pyramid/location.py'] = _read(os.path.join(src_root, 'pyramid/location.py'))
     path = os.path.join(src_root, 'pyramid/authorization.py')
     text = _read(path)
     if text is None:
@@ -1241,6 +1254,9 @@ if __name__ == '__main__':
             pr = []
             fbs[spec['gen']] = translate_leaf(spec, _read(os.path.join(root, spec['file'])), pr)
             assert fbs[spec['gen']] and not pr, pr
+        pr = []
+        fbs['gen_lineage'] = translate_lineage.translate(_read(os.path.join(root, 'pyramid/location.py')), pr)
+        assert fbs['gen_lineage'] and not pr, pr
         with open(FALLBACK, 'w') as f:
             json.dump(fbs, f, indent=1, sort_keys=True)
         print('wrote', FALLBACK)
